@@ -490,6 +490,60 @@ pub fn type_events() -> Vec<Value> {
     out
 }
 
+/// Small value-level API of moves, rights and raw boards (all total functions over tiny domains).
+pub fn moveapi_event() -> Value {
+    use owlchess::moves::{Move, MoveKind};
+    let mut castlings = Vec::new();
+    for c in [Color::White, Color::Black] {
+        for sd in [CastlingSide::Queen, CastlingSide::King] {
+            castlings.push(mv_json(Move::from_castling(c, sd)));
+        }
+    }
+    let kinds: Vec<Value> = KINDS.iter().map(|k| json!({"kind": *k as u8,
+        "promote": k.promote().map(|p| p.index() as i32).unwrap_or(-1),
+        "matches": Piece::iter().map(|p| k.matches_piece(p)).collect::<Vec<_>>()})).collect();
+    let mut unset = Vec::new();
+    for i in 0..16 {
+        let mut row = Vec::new();
+        for c in [Color::White, Color::Black] {
+            let mut r = CastlingRights::from_index(i);
+            r.unset_color(c);
+            row.push(r.index());
+        }
+        unset.push(row);
+    }
+    // ep_dest for every mark and side; get2/put2 against get/put on every square
+    let mut epd = Vec::new();
+    for c in [Color::White, Color::Black] {
+        let mut r = RawBoard::empty();
+        r.side = c;
+        let mut row = vec![r.ep_dest().map(|x| x.index() as i32).unwrap_or(-1)];
+        for s in 0..64 {
+            r.ep_source = Some(Coord::from_index(s));
+            row.push(r.ep_dest().map(|x| x.index() as i32).unwrap_or(-1));
+        }
+        epd.push(row);
+    }
+    let mut put2 = Vec::new();
+    for f in File::iter() {
+        for rk in Rank::iter() {
+            let mut r = RawBoard::empty();
+            let cell = Cell::from_index(1 + (f.index() * 8 + rk.index()) % 12);
+            r.put2(f, rk, cell);
+            let at: Vec<usize> = (0..64).filter(|i| r.cells[*i] != Cell::EMPTY).collect();
+            put2.push(json!({"file": f.index(), "rank": rk.index(), "cell": cell.index(), "at": at,
+                             "get2": r.get2(f, rk).index(), "get": r.get(Coord::from_parts(f, rk)).index()}));
+        }
+    }
+    let ini = owlchess::MoveChain::new_initial();
+    json!({"ev": "t_moveapi", "castlings": castlings, "kinds": kinds, "unset_color": unset, "ep_dest": epd, "put2": put2,
+           "new_initial": {"start": raw_json(ini.startpos()), "last": raw_json(ini.last().raw()), "len": ini.len(),
+                           "eq_new": ini == owlchess::MoveChain::new(Board::initial()), "outcome_none": ini.outcome().is_none()},
+           "initial": raw_json(Board::initial().raw()), "raw_initial": raw_json(&RawBoard::initial()), "raw_empty": raw_json(&RawBoard::empty()),
+           "null_move": mv_json(Move::NULL), "null_uci": text_json(&Move::NULL.to_string()),
+           "kind_null_default": MoveKind::default() as u8})
+}
+
 pub fn outcomes_event() -> Value {
     use owlchess::types::{DrawReason as D, GameStatus, Outcome, OutcomeFilter as F, WinReason as W};
     let mut all: Vec<Outcome> = Vec::new();
